@@ -295,7 +295,7 @@ def check_getter(ctx, cr, s, f):
     key0 = "%s::%s" % (s["path"], fname)
     fn = fn_of(cr, s["path"], fname)
     if fn is None:
-        ctx.ob(props | {"C17"}, key0 + "|getter|present", False, "getter `%s` not found on %s" % (fname, s["path"]))
+        ctx.ob({"C17"}, key0 + "|getter|present", False, "getter `%s` not found on %s" % (fname, s["path"]))
         return
     ctx.note_shape(props, s["path"], decl_shape(s, f))
     sym = self_sym()
@@ -475,7 +475,7 @@ def check_writers(ctx, cr, s, f):
         key0 = "%s::%s%s" % (s["path"], which, fname)
         fn = fn_of(cr, s["path"], which + fname)
         if fn is None:
-            ctx.ob(props | {"C17"}, key0 + "|present", False, "`%s%s` not found on %s" % (which, fname, s["path"]))
+            ctx.ob({"C17"}, key0 + "|present", False, "`%s%s` not found on %s" % (which, fname, s["path"]))
             continue
         parts = runs_by_part(fn)
         for i in idxs:
@@ -535,6 +535,35 @@ def check_writers(ctx, cr, s, f):
         d = diff_bits(other, bits)
         ctx.ob({"C02", "C12"} | ({"C03"} if f["array"] else set()), "%s::set_%s|%s|agrees_with_with" % (s["path"], fname, pk),
                d is None, "set_ and with_ disagree: %s" % d if d else "")
+
+
+def check_frame_only(ctx, cr, s, f):
+    """a field whose range list names a bit twice is outside the C04 mapping guarantee, but its writers
+    must still leave every bit outside the field's footprint equal to the receiver's (C02, C12)"""
+    fname = f["name"].replace("r#", "")
+    foot = ffootprint(f)
+    sym = self_sym()
+    for which in ("with_", "set_"):
+        fn = fn_of(cr, s["path"], which + fname)
+        if fn is None:
+            continue
+        for run in fn.get("runs", []):
+            part = run["part"]
+            if any(str(v).startswith(">=") for v in part.values()):
+                continue
+            okey = "%s::%s%s|frame|%s" % (s["path"], which, fname, ",".join("%s=%s" % kv for kv in sorted(part.items())) or "-")
+            o, prob = single_ret(run)
+            if o is None:
+                ctx.ob({"C02", "C12"}, okey, None, prob)
+                continue
+            bits = raw_of_struct_val(o["v"]) if which == "with_" else raw_of_struct_val(o["cells"].get("p0"))
+            if bits is None:
+                ctx.ob({"C02", "C12"}, okey, None, "unexpected shape")
+                continue
+            bad = [k for k, b in enumerate(bits) if k not in foot and b != S(sym, k)]
+            und = any(bits[k] == T for k in bad)
+            ctx.ob({"C02", "C12"}, okey, None if (bad and und) else (not bad),
+                   "`%s%s` changes bit(s) %s, which lie outside the field (bits %s)" % (which, fname, bad[:6], sorted(foot)[:12]) if bad else "")
 
 
 # ------------------------------------------------------------------ basics: raw round trip, constants, layout (C06, C11)
@@ -1483,7 +1512,7 @@ def check_c11(ctx, cr, s):
         # who may write the raw field
     for f in cr["fns"]:
         if path in f.get("assigns_fields_of", []) or path in f.get("constructs", []):
-            ok = f.get("adt") in (path,) or (f.get("trait") in ("core::clone::Clone",) and f.get("adt") == path)
+            ok = f.get("adt") in (path, pp)
             ctx.ob({"C11"}, "%s|raw_writer|%s" % (path, f["path"]), ok, "raw_value of %s is written by %s" % (path, f["path"]) if not ok else "")
 
 
@@ -1636,6 +1665,8 @@ def analyse_positive(ctx, want_props):
                 for f in d["fields"]:
                     if "w" in f["access"] and not self_overlapping(f):
                         check_writers(ctx, cr, d, f)
+                    elif "w" in f["access"]:
+                        check_frame_only(ctx, cr, d, f)
             if want_props & {"C06", "C11", "C15"}:
                 check_basics(ctx, cr, d)
             if want_props & {"C12", "C06"}:
